@@ -173,6 +173,9 @@ func isGenericFamily(family string) bool {
 // The buffers are used to reduce allocations and the returned slice is owned by them.
 func (fm fontSet) selectByFamilyExact(family string, cribleBuffer familyCrible, footprintsBuffer *scoredFootprints,
 ) []int {
+	// family names are compared without case nor blanks, the generic ones included
+	// (" monospace" is what splitting a CSS list at commas gives)
+	family = font.NormalizeFamily(family)
 	if isGenericFamily(family) {
 		// See the CSS spec (https://www.w3.org/TR/css-fonts-4/#font-style-matching) :
 		// "If the family name is a generic family keyword, the user agent looks up the appropriate
